@@ -38,18 +38,56 @@ TABLES = {
 MOD = "cobra.io.dict"
 
 
-def _lit_list(unit, name) -> List[str]:
+def _computed(unit, name, prog=None):
+    """The value the module's own top-level statements give the name (tables derived from one another)."""
+    from ..interp import Interp
+
+    if prog is None:
+        return None
+    return Interp(prog, (), [], {}, globals_={})._module_env(unit).get(name)
+
+
+def _lit_list(unit, name, prog=None) -> List[str]:
     v = unit.globals.get(name)
     if not v or not isinstance(v[-1], (ast.List, ast.Tuple)):
-        raise AnalysisError(f"io.dict.{name} is not a literal list")
+        got = _computed(unit, name, prog)
+        if isinstance(got, (list, tuple)) and all(isinstance(x, str) for x in got):
+            return list(got)
+        raise AnalysisError(f"io.dict.{name} cannot be computed as a list of keys")
     return [e.value for e in v[-1].elts if isinstance(e, ast.Constant)]
 
 
-def _lit_dict_keys(unit, name) -> List[str]:
+def _lit_dict_keys(unit, name, prog=None) -> List[str]:
     v = unit.globals.get(name)
     if not v or not isinstance(v[-1], ast.Dict):
-        raise AnalysisError(f"io.dict.{name} is not a literal dict")
+        got = _computed(unit, name, prog)
+        if isinstance(got, dict) and all(isinstance(x, str) for x in got):
+            return list(got)
+        raise AnalysisError(f"io.dict.{name} cannot be computed as a table of defaults")
     return [k.value for k in v[-1].keys if isinstance(k, ast.Constant)]
+
+
+def check_direction(ctx) -> None:
+    """Objective direction (K6): nothing that model_to_dict does (itself or through the package functions it calls)
+    mentions the direction of the objective."""
+    prog = ctx.prog
+    to = prog.func(MOD, "model_to_dict")
+    seen, todo, txt = set(), [to], []
+    while todo:
+        f = todo.pop()
+        if f.qualname in seen or len(seen) > 40:
+            continue
+        seen.add(f.qualname)
+        txt.append(" ".join(ast.unparse(f.node).split()))
+        for c in walk_local(f.node):
+            if isinstance(c, ast.Call):
+                for callee, _recv in ctx.inf.call_targets(f, c):
+                    if callee.unit is to.unit:
+                        todo.append(callee)
+    if any("direction" in t for t in txt):
+        ctx.ok("C11.direction", to, "objective direction", "the objective direction is written")
+    else:
+        ctx.bad("C11.direction", to, "objective direction", "the objective direction has no key in the dict/JSON/YAML form: a minimisation model is loaded as a maximisation")
 
 
 def check_keys(ctx) -> None:
@@ -57,9 +95,9 @@ def check_keys(ctx) -> None:
     unit = prog.unit(MOD)
     written: Dict[str, Set[str]] = {}
     for kind, (req, order, opt) in TABLES.items():
-        required = _lit_list(unit, req) if req else ["id"]
-        ordered = _lit_list(unit, order)
-        optional = _lit_dict_keys(unit, opt)
+        required = _lit_list(unit, req, prog) if req else ["id"]
+        ordered = _lit_list(unit, order, prog)
+        optional = _lit_dict_keys(unit, opt, prog)
         if set(ordered) == set(optional):
             ctx.ok("C11.keys", None, f"{order} / {opt}", f"{kind}: every optional key that is written has a default and vice versa")
         else:
@@ -73,13 +111,6 @@ def check_keys(ctx) -> None:
             ctx.bad("C11.keys", None, order, f"{kind}: {sorted(missing)} (named in the property) is not written at all: it is lost in every dict/JSON/YAML round trip", file=unit.rel)
         else:
             ctx.ok("C11.keys", None, f"{kind} coverage", f"written keys cover {sorted(WANT[kind] - {'objective_direction'})}")
-    # objective direction (K6)
-    to = prog.func(MOD, "model_to_dict")
-    txt = " ".join(ast.unparse(to.node).split())
-    if "direction" in txt:
-        ctx.ok("C11.direction", to, "objective direction", "the objective direction is written")
-    else:
-        ctx.bad("C11.direction", to, "objective direction", "the objective direction has no key in the dict/JSON/YAML form: a minimisation model is loaded as a maximisation")
     # writers use the tables
     for kind, fname in (("reaction", "_reaction_to_dict"), ("metabolite", "_metabolite_to_dict"), ("gene", "_gene_to_dict"), ("model", "model_to_dict")):
         fn = prog.func(MOD, fname)
@@ -532,6 +563,7 @@ def run(ctx) -> None:
     # The structural reading of the key tables, of the bounds handling and of the defaults explains what the evaluated
     # round trip decides: its reports are issued when the round trip is found wrong as well (or could not be
     # evaluated). The objective direction (K6) is not part of the evaluated round trip and is always read.
+    check_direction(ctx)
     held = []
     real_bad = ctx.bad
     ctx.bad = lambda *a, **k: (real_bad(*a, **k) if a and a[0] == "C11.direction" else held.append((a, k)))  # type: ignore[method-assign]
